@@ -52,6 +52,20 @@ def explore(items, monitors, H, D, who_fn=default_who, seed=0, merge=True, max_g
     return engines.fanout(items, make_worker(monitors, H, D, who_fn, merge=merge, max_group=max_group, outcome_fn=outcome_fn), seed=seed)
 
 
+def edited_items(base_opts=None, names=None):
+    """items whose observed run follows an earlier run and an in-place edit of the model (oracle facts come from the edited spec)"""
+    from . import edits
+
+    out = []
+    for before, after, name in edits.edit_cases():
+        if names and name not in names:
+            continue
+        o = dict(base_opts or {"rule": "TSLACK", "max_time": 30})
+        o.update(build_from=before, edit=name, presim=1)
+        out.append((after, o))
+    return out
+
+
 def replay(v, monitors):
     """Re-run the single execution of a violation record without the explorer."""
     ex = runner.run(v["spec"], dict(v["opts"]))
